@@ -5,11 +5,175 @@
 
 package cacheutil
 
-//@ func (c *LRUCache) Add
+// ---- reference counter: ghost accounting ----
+// member(r): the cache-membership reference is outstanding (initialize ran, finalize did not).
+// r.holders: number of done-closures handed out for r that have not released yet (ghost).
+// r.fired:   number of times the eviction callback was invoked for r (ghost).
+//@ type refCounter
+//@   ghost holders int
+//@   ghost fired int
+//@   ghost owner ref
+//@   callback onEvicted
+//@   modifies self.fired
+//@   ensures self.fired == old(self.fired) + 1
+//@ pure member(r *refCounter) bool = once(r.initializeOnce) && !once(r.finalizeOnce)
+//@ pure RCI(r *refCounter) bool = r.holders >= 0 && (r.holders > 0 ==> once(r.initializeOnce)) && r.refCounts == (member(r) ? 1 : 0) + r.holders && r.fired == ((once(r.initializeOnce) && !member(r) && r.holders == 0 && r.onEvicted != nil) ? 1 : 0)
+
+//@ func (r *refCounter) inc
 //@   props C10
-//@   requires c.cache != nil
-//@   ensures[C10] done != nil
+//@   arith math
+//@   modifies r.refCounts
+//@   ensures[C10] r.refCounts == old(r.refCounts) + 1
+//@ func (r *refCounter) dec
+//@   props C10
+//@   arith math
+//@   modifies r.refCounts, r.fired
+//@   ensures[C10] r.refCounts == old(r.refCounts) - 1
+//@   ensures[C10] r.fired == old(r.fired) + ((r.refCounts <= 0 && r.onEvicted != nil) ? 1 : 0)
+//@ func (r *refCounter) initialize
+//@   props C10
+//@   arith math
+//@   modifies r.refCounts, once(r.initializeOnce)
+//@   ensures[C10] once(r.initializeOnce) && r.refCounts == old(r.refCounts) + (old(once(r.initializeOnce)) ? 0 : 1)
+//@ func (r *refCounter) finalize
+//@   props C10
+//@   arith math
+//@   modifies r.refCounts, r.fired, once(r.finalizeOnce)
+//@   ensures[C10] once(r.finalizeOnce)
+//@   ensures[C10] old(once(r.finalizeOnce)) ==> r.refCounts == old(r.refCounts) && r.fired == old(r.fired)
+//@   ensures[C10] !old(once(r.finalizeOnce)) ==> r.refCounts == old(r.refCounts) - 1 && r.fired == old(r.fired) + ((r.refCounts <= 0 && r.onEvicted != nil) ? 1 : 0)
+
+// ---- LRU cache: monitor on c.mu over an assumed contract of groupcache/lru ----
+// lruRes: ghost view of the inner lru.Cache (key -> resident *refCounter). The inner cache is external: its contract
+// below is an ASSUMPTION (Get returns what was added and not yet evicted; Add may evict at most one other resident
+// entry and calls OnEvicted for it exactly once; Remove calls OnEvicted for the removed entry). NewLRUCache installs
+// OnEvicted = value.(*refCounter).finalize(), whose effect FIN is spelled out in these contracts.
+//@ ghost lruRes map[string]*refCounter
+//@ ghost victim *refCounter
+//@ ghost victimKey string
+//@ pure FIN(x *refCounter) bool = once(x.finalizeOnce) && (old(once(x.finalizeOnce)) ==> x.refCounts == old(x.refCounts) && x.fired == old(x.fired)) && (!old(once(x.finalizeOnce)) ==> x.refCounts == old(x.refCounts) - 1 && x.fired == old(x.fired) + ((x.refCounts <= 0 && x.onEvicted != nil) ? 1 : 0))
+//@ pure SAME(x *refCounter) bool = x.refCounts == old(x.refCounts) && x.fired == old(x.fired) && (once(x.finalizeOnce) <==> old(once(x.finalizeOnce)))
+//@ func github.com/golang/groupcache/lru.(*Cache).Get
+//@   trusted
+//@   ensures ok <==> asString(key) in lruRes
+//@   ensures ok ==> typeof(value) == tagof("*refCounter") && payload(value) == ref(lruRes[asString(key)])
+//@ func github.com/golang/groupcache/lru.(*Cache).Add
+//@   trusted
+//@   requires !(asString(key) in lruRes) && typeof(value) == tagof("*refCounter")
+//@   modifies lruRes[*], victim, victimKey, heap("F:util/cacheutil.refCounter.refCounts"), heap("G:util/cacheutil.refCounter.fired"), heap("O:util/cacheutil.refCounter.finalizeOnce")
+//@   ensures asString(key) in lruRes && ref(lruRes[asString(key)]) == payload(value)
+//@   ensures victim != nil ==> victimKey != asString(key) && !(victimKey in lruRes) && oldhas(lruRes, victimKey) && oldget(lruRes, victimKey) == victim
+//@   ensures forall k string :: k != asString(key) && k in lruRes ==> old(k in lruRes) && lruRes[k] == old(lruRes[k])
+//@   ensures forall k string :: k != asString(key) && old(k in lruRes) && !(k in lruRes) ==> old(lruRes[k]) == victim
+//@   ensures victim == nil || (ref(victim) != payload(value) && FIN(victim))
+//@   ensures forall r *refCounter :: (victim == nil || r != victim) ==> SAME(r)
+//@ func github.com/golang/groupcache/lru.(*Cache).Remove
+//@   trusted
+//@   modifies lruRes[*], victim, heap("F:util/cacheutil.refCounter.refCounts"), heap("G:util/cacheutil.refCounter.fired"), heap("O:util/cacheutil.refCounter.finalizeOnce")
+//@   ensures !(asString(key) in lruRes)
+//@   ensures forall k string :: k != asString(key) ==> ((k in lruRes <==> old(k in lruRes)) && lruRes[k] == old(lruRes[k]))
+//@   ensures old(asString(key) in lruRes) ==> victim == old(lruRes[asString(key)]) && FIN(victim)
+//@   ensures !old(asString(key) in lruRes) ==> victim == nil
+//@   ensures forall r *refCounter :: (victim == nil || r != victim) ==> SAME(r)
+
+//@ pure LRE() bool = forall k string :: k in lruRes ==> lruRes[k] != nil && member(lruRes[k]) && lruRes[k].key == k
+//@ type LRUCache
+//@   guards[C10] mu: ghost lruRes, refCounter.refCounts, refCounter.holders, refCounter.fired, refCounter.initializeOnce, refCounter.finalizeOnce, once
+//@   invariant[C10] mu: LRE()
+//@   invariant[C10] mu: forall r *refCounter :: RCI(r)
+
+//@ func (c *LRUCache) decreaseOnceFunc
+//@   ghostentry rc.holders = rc.holders + 1
+//@ func (c *LRUCache) decreaseOnceFunc$1$1
+//@   ghostentry rc.holders = rc.holders - 1
+//@ func (c *LRUCache) decreaseOnceFunc$1
+//@   props C10
+//@   arith math
+//@   requires c != nil && rc != nil
+//@   assumelocked !once(once) ==> rc.holders >= 1
+//@   assumelocked once(rc.initializeOnce)
+//@   ensures[C10] !locked(once(once)) ==> rc.holders == locked(rc.holders) - 1
+//@   ensures[C10] locked(once(once)) ==> rc.holders == locked(rc.holders)
+//@   ensures[C10] forall k string :: (k in lruRes <==> locked(k in lruRes)) && lruRes[k] == locked(lruRes[k])
+
 //@ func (c *LRUCache) Get
 //@   props C10
+//@   arith math
 //@   requires c.cache != nil
-//@   ensures[C10] ok ==> done != nil
+//@   ensures[C10] ok <==> locked(key in lruRes)
+//@   ensures[C10] ok ==> done != nil && value == locked(lruRes[key].v) && locked(lruRes[key]).holders == locked(lruRes[key].holders) + 1
+//@   ensures[C10] forall k string :: (k in lruRes <==> locked(k in lruRes)) && lruRes[k] == locked(lruRes[k])
+//@ func (c *LRUCache) Add
+//@   props C10
+//@   arith math
+//@   requires c.cache != nil
+//@   ensures[C10] done != nil && (added <==> !locked(key in lruRes))
+//@   ensures[C10] !added ==> cachedValue == locked(lruRes[key].v) && lruRes[key] == locked(lruRes[key]) && locked(lruRes[key]).holders == locked(lruRes[key].holders) + 1
+//@   ensures[C10] added ==> key in lruRes && cachedValue == value && lruRes[key].holders == 1 && lruRes[key].fired == 0
+//@   ensures[C10] forall k string :: k != key && k in lruRes ==> locked(k in lruRes) && lruRes[k] == locked(lruRes[k])
+//@   ensures[C10] forall k string :: k != key && locked(k in lruRes) && !(k in lruRes) ==> !member(locked(lruRes[k]))
+//@ func (c *LRUCache) Remove
+//@   props C10
+//@   arith math
+//@   requires c.cache != nil
+//@   ensures[C10] !(key in lruRes) && (locked(key in lruRes) ==> !member(locked(lruRes[key])))
+//@   ensures[C10] forall k string :: k != key ==> ((k in lruRes <==> locked(k in lruRes)) && lruRes[k] == locked(lruRes[k]))
+
+// ---- TTL cache: monitor on c.mu ----
+// Everything reachable from the cache (its map, every refCounter's counters, ghost accounting and the Once flags) is
+// protected by c.mu. Invariant: entries are well formed and hold the membership reference of the refCounter filed under
+// their own key; every refCounter satisfies RCI (so: holders > 0 ==> fired == 0, and fired <= 1).
+//@ pure TTE(c *TTLCache) bool = c.m != nil && (forall k string :: k in c.m ==> c.m[k] != nil && c.m[k].refCounter != nil && c.m[k].t != nil && member(c.m[k].refCounter) && c.m[k].refCounter.key == k && c.m[k].refCounter.owner == ref(c.m[k]))
+//@ type TTLCache
+//@   guards[C10] mu: m, refCounter.refCounts, refCounter.holders, refCounter.fired, refCounter.initializeOnce, refCounter.finalizeOnce, once
+//@   invariant[C10] mu: TTE(self)
+//@   invariant[C10] mu: forall r *refCounter :: RCI(r)
+
+//@ func (c *TTLCache) decreaseOnceFunc
+//@   ghostentry rc.refCounter.holders = rc.refCounter.holders + 1
+//@   ghostentry rc.refCounter.owner = ref(rc)
+
+//@ func (c *TTLCache) Get
+//@   props C10
+//@   arith math
+//@   ensures[C10] ok <==> locked(key in c.m)
+//@   ensures[C10] ok ==> done != nil && value == locked(c.m[key].refCounter.v) && locked(c.m[key]).refCounter.holders == locked(c.m[key].refCounter.holders) + 1
+//@   ensures[C10] forall k string :: (k in c.m <==> locked(k in c.m)) && c.m[k] == locked(c.m[k])
+//@ func (c *TTLCache) Add
+//@   props C10
+//@   arith math
+//@   ensures[C10] done != nil && (added <==> !locked(key in c.m))
+//@   ensures[C10] !added ==> cachedValue == locked(c.m[key].refCounter.v) && c.m[key] == locked(c.m[key]) && locked(c.m[key]).refCounter.holders == locked(c.m[key].refCounter.holders) + 1
+//@   ensures[C10] added ==> key in c.m && cachedValue == value && c.m[key].refCounter.holders == 1 && c.m[key].refCounter.fired == 0
+//@   ensures[C10] forall k string :: k != key ==> ((k in c.m <==> locked(k in c.m)) && c.m[k] == locked(c.m[k]))
+//@ func (c *TTLCache) Add$1
+//@   props C10
+//@   arith math
+//@   requires c != nil
+//@   ensures[C10] !(key in c.m) && (locked(key in c.m) ==> !member(locked(c.m[key]).refCounter))
+//@   ensures[C10] forall k string :: k != key ==> ((k in c.m <==> locked(k in c.m)) && c.m[k] == locked(c.m[k]))
+//@ func (c *TTLCache) Remove
+//@   props C10
+//@   arith math
+//@   ensures[C10] !(key in c.m) && (locked(key in c.m) ==> !member(locked(c.m[key]).refCounter))
+//@   ensures[C10] forall k string :: k != key ==> ((k in c.m <==> locked(k in c.m)) && c.m[k] == locked(c.m[k]))
+
+// the Once body of a done func gives its holder unit back
+//@ func (c *TTLCache) decreaseOnceFunc$1$1
+//@   ghostentry rc.refCounter.holders = rc.refCounter.holders - 1
+
+// owner: ghost back pointer from a refCounter to the refCounterWithTimer embedding it (set when a done func is made);
+// it makes "one refCounter per entry" a single-variable invariant.
+// A done func is a linear token for one holder unit of rc until its Once fires (protocol assumption, see DESIGN).
+//@ func (c *TTLCache) decreaseOnceFunc$1
+//@   props C10
+//@   arith math
+//@   requires c != nil && rc != nil && rc.refCounter != nil && rc.t != nil
+//@   assumelocked !once(once) ==> rc.refCounter.holders >= 1
+//@   assumelocked once(rc.refCounter.initializeOnce)
+//@   assumelocked rc.refCounter.owner == ref(rc)
+//@   ensures[C10] !locked(once(once)) ==> rc.refCounter.holders == locked(rc.refCounter.holders) - 1
+//@   ensures[C10] locked(once(once)) ==> rc.refCounter.holders == locked(rc.refCounter.holders)
+//@   ensures[C10] evict ==> !member(rc.refCounter)
+//@   ensures[C10] forall k string :: locked(k in c.m) && !(k in c.m) ==> evict && locked(c.m[k]) == rc
+//@   ensures[C10] forall k string :: k in c.m ==> locked(k in c.m) && c.m[k] == locked(c.m[k])
